@@ -45,3 +45,25 @@ def sym_registers(ctx, radio, prefix="pre"):
 
 def pad_trunc(data, n):
     return (list(data) + [0] * 32)[:n]
+
+
+def touch_rf24_getters(nrf, down=False):
+    """read every read-only attribute / getter of an RF24 (or lite RF24) object: reading is not a configuration change, so
+    nothing about the object's later behaviour may depend on whether - or in which order - they were read"""
+    for name in ("channel", "data_rate", "pa_level", "is_lna_enabled", "crc", "address_length", "ard", "arc", "auto_ack",
+                 "dynamic_payloads", "payload_length", "ack", "allow_ask_no_ack", "power", "listen", "pipe", "irq_dr", "irq_ds",
+                 "irq_df", "tx_full", "is_plus_variant", "last_tx_arc", "rpd"):
+        try:
+            getattr(nrf, name)
+        except AttributeError:
+            pass  # (not offered by the lite driver)
+    pipes = range(5, -1, -1) if down else range(6)  # (the per-pipe getters are read in ascending or descending order)
+    for meth, args in (("get_auto_retries", [()]), ("get_auto_ack", [(p,) for p in pipes]),
+                       ("get_dynamic_payloads", [(p,) for p in pipes]), ("get_payload_length", [(p,) for p in pipes]),
+                       ("address", [(p,) for p in pipes] + [()]), ("fifo", [(True,), (False,), (True, True)]),
+                       ("available", [()]), ("any", [()])):
+        f = getattr(nrf, meth, None)
+        if f is None:
+            continue
+        for a in args:
+            f(*a)
